@@ -209,6 +209,10 @@ func (p *Proxy) call(ctx context.Context, m *GoMethod, args ...Object) Object {
 		return ArgsErrorf("args error: %s() requires %d arguments, but %d were given",
 			methodFullName, minArgs, len(inputs))
 	}
+	if argIndex < len(args) && !isVariadic {
+		return ArgsErrorf("args error: %s() takes %d arguments, but %d were given",
+			methodFullName, argIndex, len(args))
+	}
 	outputs := m.method.Func.Call(inputs)
 	if len(outputs) == 0 {
 		return Nil
